@@ -947,6 +947,13 @@ func (d *Driver) judgeC09() {
 					faulted = true
 				}
 			}
+			// (the release reads the record back before it deletes it: a read that the store did not
+			// answer in time is the same excuse)
+			if op.Inst == a.Inst && op.Gen == a.Gen && op.Kind == "get" && strings.HasPrefix(op.Caller, "StopWithContext") && op.SInvoke >= a.SInv && op.SInvoke <= a.SRet {
+				if op.Fault != "" || !op.Applied || op.TRet < 0 || op.Err != nil || op.TRet > a.TInv+to-time.Millisecond {
+					faulted = true
+				}
+			}
 		}
 		if faulted || (!issued && a.TRet >= a.TInv+to-time.Millisecond) {
 			continue
